@@ -2,8 +2,9 @@ PROPS["C05"] = dict(
     pkg="p_distlock", hooks=["timeout", "inmem", "distlock"], level="fault_enumeration", design="DESIGN.md §4 C05",
     technique="scenario-based PBT on the real clock with short leases (overlay hook) and a fault-injecting storage wrapper: enumeration of 'k-th renewal fails' for every k, drawn hold/death/unlock-race scenarios, interval oracles with retry-confirmation",
     rule="scenario kinds: hold(n lease periods, renewal calls k1[,k2] fail transiently - every single k enumerated in the everyk unit, consecutive "
-         "and separated pairs drawn) sampled every lease/5: record present, ExpiresAt in the future, contender TryLock false, renewals continue; "
-         "death(phase 0..99% of the renewal cycle, after 0..3 renewals): a waiting LockWithCtx acquires not before the ExpiresAt stored at the "
+         "and separated pairs drawn; each renewal call may take 5-15% of the lease to reach the storage) sampled every lease/5: record present, ExpiresAt in the future, contender TryLock false, renewals continue; "
+         "death(phase 0..99% of the renewal cycle, after 0..3 renewals, 1..3 lockers of different providers parked in LockWithCtx): they get the lock one at "
+         "a time (a critical-section counter is checked), the first one not before the ExpiresAt stored at the "
          "moment of death (exact) and within one lease + 2 s of it; unlockrace(renewal in flight parked before/after being applied while Unlock "
          "runs): no record afterwards, <= 1 renewal attempt reaches the storage after Unlock returned, none succeeds, a second tenure of the "
          "same Locker is held for two leases undisturbed; handoff(first tenure ends at 5..110% of a renewal cycle after 0..2 renewals, the second "
